@@ -18,9 +18,18 @@ CMP = 'adsg_core/optimization/hierarchy/complete.py:'
 
 SUP = 'adsg_core/graph/sup/dsg.py:'
 CH = 'adsg_core/graph/choices.py:'
+BAS = 'adsg_core/graph/adsg_basic.py:'
 CC = 'adsg_core/graph/choice_constraints.py:'
 
 CASES = [
+    (BAS + 'BasicDSG._get_floating_nodes', 'break', "                if get_edge_type(edge) in {EdgeType.DERIVES, EdgeType.CONNECTS}:", "                if get_edge_type(edge) in {EdgeType.DERIVES}:"),
+    (BAS + 'BasicDSG._get_floating_nodes', 'break', "                    break\n            else:\n                floating_nodes.add(node)", "                    continue\n            else:\n                floating_nodes.add(node)"),
+    (BAS + 'BasicDSG._get_floating_nodes', 'break', "            for edge in iter_in_edges(self._graph, node):", "            for edge in iter_out_edges(self._graph, node):"),
+    (BAS + 'BasicDSG.set_start_nodes', 'break', "                graph, floating_node, start_nodes, removed_edges=removed_edges, removed_nodes=removed_nodes)", "                graph, floating_node, start_nodes)"),
+    (BAS + 'BasicDSG.set_start_nodes', 'break', "            if floating_node in start_nodes:\n                continue\n            removed_nodes.add(floating_node)", "            if floating_node in start_nodes:\n                break\n            removed_nodes.add(floating_node)"),
+    (BAS + 'BasicDSG.set_start_nodes', 'break', "        if len(start_nodes) == 0:\n            raise ValueError('Provide at least one starting node!')", "        if len(start_nodes) == 1:\n            raise ValueError('Provide at least one starting node!')"),
+    (BAS + 'BasicDSG.set_start_nodes', 'break', "            removed_nodes.add(floating_node)\n", "            pass\n"),
+    (BAS + 'BasicDSG.set_start_nodes', 'keep', "        dsg = self\n        removed_edges, removed_nodes = set(), set()", "        removed_edges, removed_nodes = set(), set()\n        dsg = self"),
     (CC + 'get_constraint_pre_removed_options', 'break', "n_opt_max = max([len(options) for options in choice_constraint.options])", "n_opt_max = min([len(options) for options in choice_constraint.options])"),
     (CC + 'get_constraint_pre_removed_options', 'break', "        if n_dec > n_opt_max:\n            return [", "        if n_dec >= n_opt_max:\n            return ["),
     (CC + 'get_constraint_pre_removed_options', 'break', "                               if i_opt < i_start or i_opt >= i_end]", "                               if i_opt <= i_start or i_opt >= i_end]"),
